@@ -304,7 +304,10 @@ def scen_c13(wd, rnd, quick):
         idx = [5, (1 << 19) + 3, 0, BIG - 1][k % 4]
         name = f"m{k}"
         sc.append({"c": "reg", "i": idx, "s": s, "lim": I(100)})
-        sc.append(prove_op(name, "tree", s, idx, I(100), I(1), I(7), {"len": siglen, "seed": rnd.randrange(1 << 30)}))
+        # the external nullifier is the one public value the prover chooses freely: 0 (whose only alias is the modulus itself),
+        # 1 and p-1 are boundary cases of the "one encoding" clause (added after C02-m9: `<=` instead of `<` in the canonical check)
+        ext = [I(7), I(0), I(1), {"k": "pm", "v": 1}][k % 4]
+        sc.append(prove_op(name, "tree", s, idx, I(100), I(1), ext, {"len": siglen, "seed": rnd.randrange(1 << 30)}))
         sc += verify_all(name)
         total = 296 + siglen
         lens = list(range(0, total + 1)) if not quick else sorted(set(list(range(0, 40)) + list(range(120, 136)) + list(range(280, total + 1)) + rnd.sample(range(total), 30)))
